@@ -212,6 +212,19 @@ class Normaliser:
         if isinstance(node, ast.Attribute):
             return f"{self.text(node.value, False)}.{node.attr}"
         if isinstance(node, ast.Subscript):
+            # sorted((a, b, ...))[-1] is max(a, b, ...), sorted((a, b, ...))[0] is min(a, b, ...)
+            base = node.value
+            if (
+                isinstance(base, ast.Call) and isinstance(base.func, ast.Name) and base.func.id == "sorted" and len(base.args) == 1
+                and not base.keywords and isinstance(base.args[0], (ast.Tuple, ast.List)) and base.args[0].elts
+            ):
+                idx = None
+                if isinstance(node.slice, ast.Constant) and node.slice.value == 0:
+                    idx = "min"
+                elif isinstance(node.slice, ast.UnaryOp) and isinstance(node.slice.op, ast.USub) and isinstance(node.slice.operand, ast.Constant) and node.slice.operand.value == 1:
+                    idx = "max"
+                if idx is not None:
+                    return self.text(ast.Call(func=ast.Name(id=idx, ctx=ast.Load()), args=list(base.args[0].elts), keywords=[]), False)
             return f"{self.text(node.value, False)}[{self.text(node.slice, False)}]"
         if isinstance(node, ast.Call):
             args = [self.text(a, False) for a in node.args]
